@@ -18,7 +18,7 @@ def _init_facts(repo):
     return facts(repo.func(CO, 'CollBase.__init__'))
 
 
-@rule('C05', 'C05.R1', 'CollBase requests the coefficients for THIS interval, node family, quadrature type and node count; invalid counts / intervals raise', floor=3)
+@rule('C05', 'C05.R1', 'CollBase requests the coefficients for THIS interval, node family, quadrature type and node count; invalid counts / intervals raise', floor=4)
 def r1(ctx, R):
     repo = ctx.repo
     w = f'{CO}:CollBase.__init__'
@@ -33,6 +33,11 @@ def r1(ctx, R):
         if isinstance(s, ast.If) and any(isinstance(x, ast.Raise) and 'CollocationError' in ast.unparse(x) for x in s.body):
             raises[ast.unparse(s.test)] = True
     R.check('not num_nodes > 0' in raises and 'not tleft < tright' in raises, 'CollBase.__init__ :: num_nodes <= 0 and tleft >= tright raise CollocationError before anything is built', w, ['not num_nodes > 0', 'not tleft < tright'], sorted(raises))
+    # the sweeper hands EVERY parameter it was configured with to the collocation class (node family, quadrature type, interval ..)
+    sfn = repo.func(SWP, 'Sweeper.__init__')
+    R.fn(f'{SWP}:Sweeper.__init__')
+    mk = [ast.unparse(s.value) for s in walk_no_nested(sfn) if isinstance(s, (ast.Assign, ast.AnnAssign)) and ast.unparse(s.targets[0] if isinstance(s, ast.Assign) else s.target) == 'self.coll' and s.value is not None]
+    R.check(mk == ["params['collocation_class'](**params)"], 'Sweeper.__init__ :: the collocation object is built from the complete sweeper parameters (no key is filtered out on the way)', f'{SWP}:Sweeper.__init__', "self.coll = params['collocation_class'](**params)", mk)
     kept = {f[1]: f[2] for f in fs if f[0] == 'store' and f[1] in ('self.num_nodes', 'self.tleft', 'self.tright', 'self.node_type', 'self.quad_type', 'self.order')}
     want = {'self.num_nodes': 'num_nodes', 'self.tleft': 'tleft', 'self.tright': 'tright', 'self.node_type': 'node_type', 'self.quad_type': 'quad_type', 'self.order': 'self.generator.order'}
     R.check(kept == want, 'CollBase.__init__ :: reported attributes are the requested ones; the order is the generator\'s', w, want, kept)
